@@ -36,6 +36,8 @@ pub fn equil_problem(rng: &mut StdRng) -> Problem {
             if nrm > 0.0 { let f = (1.0 + 2e-4 * gen::unif(rng, -1.0, 1.0)) / nrm; for j in 0..n { a[i][j] *= f; } p.b[i] *= f; }
         }
     }
+    // a right-hand side at or above the infinity bound (presolve is off in this corpus: the entry is capped and kept)
+    if rng.gen::<f64>() < 0.12 && m > 0 { let i = rng.gen_range(0..m); p.b[i] = [1e20, 3e25, f64::MAX][rng.gen_range(0..3)]; }
     // zero rows and columns, empty P, zero q
     if rng.gen::<f64>() < 0.4 && m > 0 { let i = rng.gen_range(0..m); for j in 0..n { a[i][j] = 0.0; } }
     if rng.gen::<f64>() < 0.3 && m > 1 { let i = rng.gen_range(0..m); for j in 0..n { a[i][j] = 0.0; } }
@@ -72,6 +74,8 @@ pub fn event(run: usize, p: &Problem) -> Value {
             let b0: Vec<f64> = p.b.iter().enumerate().map(|(i, v)| 0.5 * v + (i as f64 + 1.0)).collect();
             let mut sv = DefaultSolver::new(&P, &p.q, &A, &b0, &cones, st.clone());
             if sv.is_data_update_allowed() {
+                // (half of the time a setup-time switch is flipped on the live object first: it was consumed by the constructor)
+                if run % 6 == 1 { sv.settings.equilibrate_enable = !sv.settings.equilibrate_enable; }
                 let ib: Vec<usize> = (0..p.b.len()).rev().collect();
                 let vb: Vec<f64> = ib.iter().map(|&i| p.b[i]).collect();
                 if run % 2 == 0 { sv.update_b(&(ib, vb)).expect("update_b"); } else { sv.update_b(&std::iter::zip(&ib, &vb)).expect("update_b"); }
@@ -99,7 +103,8 @@ pub fn event(run: usize, p: &Problem) -> Value {
                 }
                 pairs.push(json!([fj(d.q[j]), fj(eq.c * eq.d[j] * p.q[j])]));
             }
-            for i in 0..m { pairs.push(json!([fj(d.b[i]), fj(eq.e[i] * p.b[i])])); }
+            // (right-hand sides at or above the infinity bound are capped at it before they are scaled)
+            for i in 0..m { pairs.push(json!([fj(d.b[i]), fj(eq.e[i] * p.b[i].min(bound))])); }
         }
         // zero rows / columns of the INPUT
         let ad = p.A.to_dense();
@@ -117,7 +122,9 @@ pub fn event(run: usize, p: &Problem) -> Value {
             for i in off..off + k { scalar_row[i] = scalar; }
             off += k;
         }
-        let user_bits = format!("{}|{}|{}|{}", hexv(&p.P.nzval), hexv(&p.A.nzval), hexv(&p.q), hexv(&p.b));
+        // (the constructor caps right-hand sides at the infinity bound whatever the settings: "untouched" is modulo that cap)
+        let bcap: Vec<f64> = p.b.iter().map(|v| v.min(bound)).collect();
+        let user_bits = format!("{}|{}|{}|{}", hexv(&p.P.nzval), hexv(&p.A.nzval), hexv(&p.q), hexv(&bcap));
         let int_bits = format!("{}|{}|{}|{}", hexv(&d.P.nzval), hexv(&d.A.nzval), hexv(&d.q), hexv(&d.b));
         json!({"ev": "Equilibrated", "run": run, "enable": st.equilibrate_enable,
                "min": fj(st.equilibrate_min_scaling), "max": fj(st.equilibrate_max_scaling), "iters": st.equilibrate_max_iter,
